@@ -92,7 +92,6 @@ Proof.
   assert (Hdone : wc (x s) = WDone).
   { apply (drain c s Hp Hq Hnr).
     - intros w Hw i Hs. assert (w = 0) by lia. subst. rewrite Hsrc in Hs. inversion Hs; subst. exact Hin.
-    - intros w Hw. assert (w = 0) by lia. subst. rewrite Hsrc. discriminate.
     - intros w Hw. pose proof (simple_reachable c SC s Hr w) as Hs.
       destruct (wc (ws s w)) as [| | ? [|[] ?] | |]; simpl in Hs; auto; inversion Hs; auto.
     - lia. }
